@@ -31,6 +31,28 @@ def run(ctx):
                 k = rng.randrange(len(neigh) + 1); lst = neigh[:k] + [name] + neigh[k:]
             base[c] = lst
             peers.append(base)
+    # the rating is per (category, name): the same name in the lists of two categories (a shared name such as 'none', or a name of one category listed
+    # in another, where it is unknown) is rated from each category's own table, whatever the other lists hold
+    shared = sorted({n for c, ents in db.items() for n in ents if sum(1 for c2 in db if n in db[c2]) > 1})
+    CATS = ['kex', 'key', 'enc', 'mac']
+    cross = []
+    for n in shared:
+        cs = [c for c in CATS if n in db[c]]
+        cross.append({c: [n] for c in cs})
+        cross.append({cs[0]: [n]})
+        cross.append({cs[-1]: [n]})
+    for _ in range(8 if q else 200):
+        a, b = rng.sample(CATS, 2)
+        n = rng.choice(sorted(db[a]))
+        if n.endswith('-*') or n in db[b]:
+            continue
+        cross.append({a: [n], b: [n]})                                 # known in a, unknown in b, both listed
+        cross.append({b: [n] + g.namelist(b, 'random')[:2]})            # only listed where it is unknown
+    for extra in cross:
+        base = {'banner': g.banner(), 'kex': ['curve25519-sha256'], 'key': ['ssh-ed25519'], 'enc': ['aes128-ctr'], 'mac': ['hmac-sha2-256'], 'client_audit': rng.random() < 0.3}
+        for c, l in extra.items():
+            base[c] = (base[c] + l) if rng.random() < 0.5 else (l + base[c])
+        peers.append(base)
     peers += [g.peer() for _ in range(60 if q else 2000)]
     recs = reportfam.standard(ctx, 0, peers=peers, parts=('items', 'json'))
     recs += reportfam.cli_records(ctx, rng.sample(peers, min(len(peers), 16 if q else 300)), parts=('items', 'json'))   # end to end, both roles
